@@ -92,6 +92,19 @@ func c12Hash(ch byte, honestN int) ref.Hash32 {
 	if ch == 'z' { // an interior node value or foreign hash
 		return ref.Hash32{0xfe, 0xed}
 	}
+	// COMPUTED interior values: a hash list may carry, as an opaque subtree hash, exactly the value
+	// that the neighbouring subtree - given leaf by leaf - computes to (the CVE-2012-2459 shape with
+	// the two equal children supplied in different forms)
+	switch ch {
+	case 'p':
+		return ref.MerkleParent(c12Alpha[1], c12Alpha[2])
+	case 'q':
+		return ref.MerkleParent(c12Alpha[2], c12Alpha[1])
+	case 'r':
+		return ref.MerkleParent(c12Alpha[1], c12Alpha[1])
+	case 's':
+		return ref.MerkleParent(ref.MerkleParent(c12Alpha[1], c12Alpha[2]), ref.MerkleParent(c12Alpha[1], c12Alpha[2]))
+	}
 	// honest proof material is addressed by index into the proof's own hash list, see c12Honest
 	panic("bad hash symbol")
 }
@@ -491,6 +504,38 @@ func runC12(c *mc.Ctx) {
 				}
 			})
 			c.Note("accepted_small_messages_used_as_bases", len(bases))
+		}
+		// hash lists over two leaves and the interior values computed from them ('p' = H(1,2), 'q' = H(2,1),
+		// 'r' = H(1,1), 's' = H(p,p)): counts 2..8, lists of length <= 5, every one-byte flag string and
+		// two-byte strings whose second byte is a run of low bits
+		{
+			var lists []string
+			syms := mc.Pick(c, "12pr", "12pqrs")
+			for l := 1; l <= 5; l++ {
+				for i := int64(0); i < ipow(len(syms), l); i++ {
+					lists = append(lists, string(bytesOfLen([]byte(syms), l, i)))
+				}
+			}
+			var fls []string
+			for b := 0; b < 256; b++ {
+				fls = append(fls, fmt.Sprintf("%02x", b))
+				for _, b2 := range []int{0x00, 0x01, 0x03, 0x07, 0x0f, 0x1f, 0x7f, 0xff} {
+					if c.Thorough() || b2 <= 0x07 {
+						fls = append(fls, fmt.Sprintf("%02x%02x", b, b2))
+					}
+				}
+			}
+			cnts := []uint32{2, 3, 4, 5, 6, 7, 8}
+			tot := int64(len(lists)) * int64(len(fls)) * int64(len(cnts))
+			c.Space("messages whose hash lists carry computed interior values next to the leaves they are computed from", tot)
+			c.ParFor(tot, func(w *mc.W, i int64) {
+				m := c12Msg{NumTx: cnts[i%int64(len(cnts))]}
+				i /= int64(len(cnts))
+				m.Flags = fls[i%int64(len(fls))]
+				m.Hashes = lists[i/int64(len(fls))]
+				w.State()
+				c12Eval(w, m)
+			})
 		}
 		shapes := []c12Msg{{Hashes: "0", Flags: "00"}, {Hashes: "0", Flags: "01"}, {Hashes: "01", Flags: "07"}, {Hashes: "", Flags: ""}}
 		c.Space("transaction counts at the wrap points of count*d (d <= 64), powers of two, 3*2^j and around the limit x 4 trivial messages", int64(len(cl)*len(shapes)))
